@@ -271,3 +271,148 @@ pub proof fn lemma_split_unseen<K>(ins: Seq<Row>, n: int, v: Seq<char>, kf: spec
         }
     }
 }
+
+// ---- tails of compile_string_case / compile_int_case_impl: the switch built from the sub-matrices ----
+impl ValMap {
+    #[verifier::external_body] pub fn len(&self) -> (r: usize) ensures r == self.entries().len() { unimplemented!() }
+    // `into_iter()`: entries leave in order of first appearance
+    #[verifier::external_body]
+    pub fn pop_front(&mut self) -> (r: (String, Vec<Row>))
+        requires old(self).entries().len() > 0,
+        ensures r.0@ == old(self).entries()[0].0, r.1@ == old(self).entries()[0].1, final(self).entries() == old(self).entries().subrange(1, old(self).entries().len() as int),
+    { unimplemented!() }
+}
+impl<T: Copy> IntMap<T> {
+    #[verifier::external_body] pub fn len(&self) -> (r: usize) ensures r == self.entries().len() { unimplemented!() }
+    #[verifier::external_body]
+    pub fn pop_front(&mut self) -> (r: (T, Vec<Row>))
+        requires old(self).entries().len() > 0,
+        ensures r.0 == old(self).entries()[0].0, r.1@ == old(self).entries()[0].1, final(self).entries() == old(self).entries().subrange(1, old(self).entries().len() as int),
+    { unimplemented!() }
+}
+impl Prim { #[verifier::external_body] pub fn string(value: String) -> (r: Prim) ensures r.str_of() == Some(value@) { unimplemented!() } }
+#[verifier::external_body] pub fn rt_msg() -> (r: String) { unimplemented!() }
+pub enum Severity { Error, Warning }
+#[verifier::external_body] pub struct Stage { _p: u64 }
+impl Stage { #[verifier::external_body] pub fn other(name: &str) -> (r: Stage) { unimplemented!() } }
+#[verifier::external_body] pub struct Diagnostic { _p: u64 }
+impl Diagnostic {
+    pub uninterp spec fn is_error(&self) -> bool;
+    #[verifier::external_body] pub fn new(stage: Stage, severity: Severity, message: String) -> (r: Diagnostic) ensures r.is_error() == (severity is Error) { unimplemented!() }
+    #[verifier::external_body] pub fn with_range(self, range: Option<TextRange>) -> (r: Diagnostic) ensures r.is_error() == self.is_error() { unimplemented!() }
+}
+impl Diagnostics {
+    pub uninterp spec fn errors(&self) -> nat;
+    #[verifier::external_body] pub fn push(&mut self, d: Diagnostic) ensures final(self).errors() == old(self).errors() + (if d.is_error() { 1nat } else { 0nat }) { unimplemented!() }
+}
+// the switch over literal keys: one arm per sub-matrix (the ORDER of the arms is not constrained: arms of distinct literals are
+// disjoint, so it does not matter for which arm is taken), the default arm from the default sub-matrix
+pub open spec fn arm_of<K>(a: core::Arm, e: (K, Seq<Row>), ty: Ty, lhs_ok: spec_fn(K, core::Expr) -> bool) -> bool {
+    lhs_ok(e.0, a.lhs) && a.body == rows_core(e.1, ty)
+}
+// (opaque: a `forall i exists j` / `forall j exists i` pair would otherwise feed each other's triggers for ever)
+#[verifier::opaque]
+pub open spec fn has_entry<K>(es: Seq<(K, Seq<Row>)>, a: core::Arm, ty: Ty, lhs_ok: spec_fn(K, core::Expr) -> bool) -> bool {
+    exists|j: int| 0 <= j < es.len() && arm_of(a, #[trigger] es[j], ty, lhs_ok)
+}
+#[verifier::opaque]
+pub open spec fn has_arm<K>(arms: Seq<core::Arm>, e: (K, Seq<Row>), ty: Ty, lhs_ok: spec_fn(K, core::Expr) -> bool) -> bool {
+    exists|i: int| 0 <= i < arms.len() && arm_of(#[trigger] arms[i], e, ty, lhs_ok)
+}
+pub open spec fn lit_switch<K>(r: core::Expr, bvar: Variable, es: Seq<(K, Seq<Row>)>, dflt: Seq<Row>, ty: Ty, lhs_ok: spec_fn(K, core::Expr) -> bool) -> bool {
+    r matches core::Expr::EMatch { expr, arms, default, ty: _ }
+    && *expr == var_core(bvar) && arms@.len() == es.len()
+    && (forall|i: int| 0 <= i < arms@.len() ==> has_entry(es, #[trigger] arms@[i], ty, lhs_ok))
+    && (forall|j: int| 0 <= j < es.len() ==> has_arm(arms@, #[trigger] es[j], ty, lhs_ok))
+    && (dflt.len() == 0 ==> default is None)
+    && (dflt.len() > 0 ==> (default matches Some(d) && *d == rows_core(dflt, ty)))
+}
+pub open spec fn str_lhs() -> spec_fn(Seq<char>, core::Expr) -> bool {
+    |k: Seq<char>, e: core::Expr| e matches core::Expr::EPrim { value, ty } && value.str_of() == Some(k) && ty is TString
+}
+pub open spec fn int_lhs<T, F: Fn(T) -> Prim>(f: F, lty: Ty) -> spec_fn(T, core::Expr) -> bool {
+    |k: T, e: core::Expr| e matches core::Expr::EPrim { value, ty } && f.ensures((k,), value) && ty == lty
+}
+
+// ---- compile_tuple_case: a tuple scrutinee is taken apart into fresh variables, its sub-patterns become columns on them ----
+impl Gensym { #[verifier::external_body] pub fn gensym(&self, prefix: &str) -> (r: String) { unimplemented!() } }
+#[verifier::external_body] pub fn core_eunit() -> (r: core::Expr) ensures !(r is ELet) { unimplemented!() }
+#[verifier::external_body] pub fn string_eq(a: &String, b: &String) -> (r: bool) ensures r == (a@ == b@) { unimplemented!() }
+// `let names[i] = bvar.i in let names[i+1] = bvar.(i+1) in .. inner`: component i is bound to the i-th fresh variable, with the i-th component type
+pub open spec fn proj_chain(names: Seq<String>, bvar: Variable, typs: Seq<Ty>, ty: Ty, i: int, inner: core::Expr) -> core::Expr
+    decreases names.len() - i,
+{
+    if i < 0 || i >= names.len() { inner }
+    else {
+        core::Expr::ELet { name: names[i], value: Box::new(core::Expr::EProj { tuple: Box::new(var_core(bvar)), index: i as usize, ty: typs[i] }),
+                           body: Box::new(proj_chain(names, bvar, typs, ty, i + 1, inner)), ty }
+    }
+}
+pub open spec fn replace_tail(e: core::Expr, r: core::Expr) -> core::Expr
+    decreases e,
+{
+    match e { core::Expr::ELet { name, value, body, ty } => core::Expr::ELet { name, value, body: Box::new(replace_tail(*body, r)), ty }, _ => r }
+}
+pub proof fn lemma_chain_tail(names: Seq<String>, bvar: Variable, typs: Seq<Ty>, ty: Ty, i: int, hole: core::Expr, inner: core::Expr)
+    requires !(hole is ELet), 0 <= i <= names.len(),
+    ensures replace_tail(proj_chain(names, bvar, typs, ty, i, hole), inner) == proj_chain(names, bvar, typs, ty, i, inner),
+    decreases names.len() - i,
+{
+    if i < names.len() { lemma_chain_tail(names, bvar, typs, ty, i + 1, hole, inner); }
+}
+// the columns of one row after the split: every column on the tuple variable is replaced, IN PLACE, by one column per sub-pattern
+// (sub-pattern i against the i-th fresh variable); the other columns are kept, in order
+pub open spec fn sub_tuple_cols(names: Seq<String>, items: Seq<Pat>, n: int) -> Seq<Column>
+    decreases n,
+{
+    if n <= 0 { Seq::<Column>::empty() } else { sub_tuple_cols(names, items, n - 1).push(Column { var: names[n - 1], pat: items[n - 1] }) }
+}
+pub open spec fn tuple_cols(cols: Seq<Column>, v: Seq<char>, names: Seq<String>, n: int) -> Seq<Column>
+    decreases n,
+{
+    if n <= 0 { Seq::<Column>::empty() }
+    else {
+        let c = cols[n - 1];
+        let pre = tuple_cols(cols, v, names, n - 1);
+        if c.var@ == v { pre + sub_tuple_cols(names, c.pat->PTuple_items@, c.pat->PTuple_items@.len() as int) } else { pre.push(c) }
+    }
+}
+pub open spec fn tuple_rows(ins: Seq<Row>, v: Seq<char>, names: Seq<String>, outs: Seq<Row>) -> bool {
+    outs.len() == ins.len()
+    && forall|k: int| 0 <= k < ins.len() ==> (#[trigger] outs[k]).body == ins[k].body && outs[k].columns@ == tuple_cols(ins[k].columns@, v, names, ins[k].columns@.len() as int)
+}
+// the same lets with the LAST component outermost (the projections are pure and the variables fresh, so the order of the lets is immaterial)
+pub open spec fn proj_chain_desc(names: Seq<String>, bvar: Variable, typs: Seq<Ty>, ty: Ty, k: int, inner: core::Expr) -> core::Expr
+    decreases k,
+{
+    if k <= 0 || k > names.len() { inner }
+    else {
+        core::Expr::ELet { name: names[k - 1], value: Box::new(core::Expr::EProj { tuple: Box::new(var_core(bvar)), index: (k - 1) as usize, ty: typs[k - 1] }),
+                           body: Box::new(proj_chain_desc(names, bvar, typs, ty, k - 1, inner)), ty }
+    }
+}
+pub proof fn lemma_chain_desc_tail(names: Seq<String>, bvar: Variable, typs: Seq<Ty>, ty: Ty, k: int, hole: core::Expr, inner: core::Expr)
+    requires !(hole is ELet), 0 <= k <= names.len(),
+    ensures replace_tail(proj_chain_desc(names, bvar, typs, ty, k, hole), inner) == proj_chain_desc(names, bvar, typs, ty, k, inner),
+    decreases k,
+{
+    if k > 0 { lemma_chain_desc_tail(names, bvar, typs, ty, k - 1, hole, inner); }
+}
+pub open spec fn tuple_case_of(r: core::Expr, rows: Seq<Row>, bvar: Variable, typs: Seq<Ty>, ty: Ty, names: Seq<String>, rs: Seq<Row>) -> bool {
+    names.len() == typs.len() && tuple_rows(rows, bvar.name@, names, rs)
+    && (r == proj_chain(names, bvar, typs, ty, 0, rows_core(rs, ty)) || r == proj_chain_desc(names, bvar, typs, ty, names.len() as int, rows_core(rs, ty)))
+}
+
+// ---- compile_unit_case: a unit scrutinee has one value; every row stays, minus its test on the variable ----
+pub open spec fn unit_row(i: Row, v: Seq<char>, o: Row) -> bool {
+    o.body == i.body && ((no_col(i, v) && o.columns@ == i.columns@) || (exists|k: int| #[trigger] col_of(i, v, k) && o.columns@ == i.columns@.remove(k)))
+}
+pub open spec fn unit_rows(ins: Seq<Row>, v: Seq<char>, outs: Seq<Row>) -> bool {
+    outs.len() == ins.len() && forall|k: int| 0 <= k < ins.len() ==> unit_row(ins[k], v, #[trigger] outs[k])
+}
+pub open spec fn unit_case_of(r: core::Expr, rows: Seq<Row>, bvar: Variable, rs: Seq<Row>) -> bool {
+    unit_rows(rows, bvar.name@, rs)
+    && (r matches core::Expr::EMatch { expr, arms, default, ty: _ } && *expr == var_core(bvar) && default is None && arms@.len() == 1
+        && !(arms@[0].lhs is ELet) && arms@[0].body == rows_core(rs, bvar.ty))
+}
+#[verifier::external_body] pub fn vec_one_arm(a: core::Arm) -> (r: Vec<core::Arm>) ensures r@ == seq![a] { unimplemented!() }   // vec![a]
